@@ -9,6 +9,7 @@
 // particle) are visible as the arguments of the logged calls.
 //
 // case:  mcts  <seed> <S> <A> <O> <K> <disc> <term:S> <table:S*A*K*(s1 o r)> <iters> <expl> <nops> ops…
+//          (every op may be preceded by model setter calls "D <disc>" / "W <idx> <r>", see nextOp)
 //          op = F <s> <h>            sampleAction(s, h)
 //             | A <a> <s1> <h>       sampleAction(a, s1, h)
 //        pomcp <seed> <S> <A> <O> <K> <disc> <term:S> <table…> <beliefSize> <iters> <expl> <nops> ops…
@@ -112,6 +113,21 @@ void readModel(vio::Cursor & c, VerifScriptBase & m) {
     for (auto & oc : m.table) { oc.s1 = c.nextSize(); oc.o = c.nextSize(); oc.r = c.nextDouble(); }
 }
 
+// Reads the next planner op.  Before it, any number of model-side setter calls (NOT counted in <nops>):
+//   D <disc>     the model's setDiscount: from now on getDiscount() returns <disc>
+//   W <idx> <r>  the model's reward of table entry <idx> (mod table size) becomes <r>
+// The planner object already exists and holds the model by const reference; it has to see the
+// model's current parameters in every later call.
+std::string nextOp(vio::Cursor & c, VerifScriptBase & m) {
+    std::string op = c.next();
+    while (op == "D" || op == "W") {
+        if (op == "D") m.discount = c.nextDouble();
+        else { const size_t i = c.nextSize(); const double r = c.nextDouble(); if (!m.table.empty()) m.table[i % m.table.size()].r = r; }
+        op = c.next();
+    }
+    return op;
+}
+
 void dumpLog(vio::Out & o, const VerifScriptBase & m) {
     o << "LOG" << m.log.size();
     for (const auto & e : m.log) o << e.rootN << e.s << e.a << e.s1 << e.o << e.r;
@@ -147,7 +163,7 @@ void runMCTS(vio::Cursor & c, vio::Out & o) {
     m.rootN = &planner.getGraph().N;
     const size_t nops = c.nextSize();
     for (size_t i = 0; i < nops; ++i) {
-        const std::string op = c.next();
+        const std::string op = nextOp(c, m);
         m.log.clear(); m.termCalls = 0;
         size_t ret;
         if (op == "F") { size_t s = c.nextSize(); unsigned h = (unsigned) c.nextSize(); ret = planner.sampleAction(s, h); }
@@ -170,7 +186,7 @@ void runPOMCP(vio::Cursor & c, vio::Out & o) {
     m.rootN = &planner.getGraph().N;
     const size_t nops = c.nextSize();
     for (size_t i = 0; i < nops; ++i) {
-        const std::string op = c.next();
+        const std::string op = nextOp(c, m);
         m.log.clear(); m.termCalls = 0;
         size_t ret;
         // what a (re)start must put into the root: beliefSize draws of sampleProbability from the
@@ -228,7 +244,7 @@ void runRPOMCP(vio::Cursor & c, vio::Out & o) {
     m.rootN = &planner.getGraph().N;
     const size_t nops = c.nextSize();
     for (size_t i = 0; i < nops; ++i) {
-        const std::string op = c.next();
+        const std::string op = nextOp(c, m);
         m.log.clear(); m.termCalls = 0;
         size_t ret;
         auto engine = planner.rand_;
